@@ -60,7 +60,8 @@ EvVerdict(t, j) ==
             ELSE PrefixVerdict(CompareMode(q), RowSeq(q, W), ev.rows)
        [] ev.op = "the" ->
             LET o == TheOutcome(q, W)
-            IN IF ev.out # o.out THEN "the.outcome"
+            IN IF ev.exc # "none" THEN "exception"
+               ELSE IF ev.out # o.out THEN "the.outcome"
                ELSE IF o.out = "value" /\ ~SameRow(o.row, ev.row) THEN "the.value"
                ELSE "ok"
        [] ev.op = "infer" ->
